@@ -483,7 +483,7 @@ func reconnect(seed int64, sameChannel bool, procs int) {
 		deadline := time.Now().Add(5 * time.Second)
 		b := -1
 		for b < 0 && time.Now().Before(deadline) {
-			for _, e := range s.Log()[from:] {
+			for _, e := range s.LogFrom(from) {
 				if e.Kind == memsock.Rx && e.Taken && e.P.Service == spec.SvcConnRes && e.P.Status == 0 {
 					b = e.Idx
 				}
